@@ -62,32 +62,59 @@ Print Assumptions C18_glue_nonvacuous.
 
 (* ---------------- when is the file saved ---------------- *)
 
-(* The lease file as a ghost component of DHCP's run: it holds the table as of the last step that ended with
-   saveConfig; [saves_on_ack]: the steps whose reply is an ACK (handleRequest's success path). *)
+(* The lease file as a ghost component of DHCP's run: [run_file saves] keeps the table as of the last step for
+   which the save policy [saves s reply s'] holds.  The code since /repo 9517ed8 saves after every ACK and wherever
+   a binding is dropped; extensionally [saves_repaired]: after an ACK, and after every step in which some non-free
+   lease does not survive as a non-free lease with the same client id, MAC, address and subnet.  That this is what
+   the code does is checked by the harness, which compares the real file with the real table after EVERY step. *)
 
-(* FULL: after every history, every acknowledged binding of the table is in the file (nothing acknowledged can be
-   lost by a restart at any point). *)
-Theorem C18_file_covers : forall c h,
+(* FULL (repaired code): after every history, every acknowledged binding of the table is in the file, and every
+   Allocated record of the file is a lease the table still holds — Allocated, or in state discover with the same
+   binding (a client re-negotiating a lease it still holds; the file rightly keeps it). *)
+Theorem C18_file_current : forall c h,
+  let r := run_file saves_repaired c (D.init c) [] h in
+  covers (snd r) (D.tbl (fst r)) /\ current_mod (snd r) (D.tbl (fst r)).
+Proof. exact file_current_repaired. Qed.
+Print Assumptions C18_file_current.
+
+(* the same for ANY save policy that saves at least when a non-free lease is lost *)
+Theorem C18_file_current_any_policy : forall saves,
+  (forall c ch s o s1 rp, D.step c ch s o = (s1, rp) -> saves s rp s1 = false ->
+     forall l, In l (D.tbl s) -> nonfree l -> nonfree_in (D.tbl s1) l) ->
+  forall c h s f, current_mod f (D.tbl s) ->
+    current_mod (snd (run_file saves c s f h)) (D.tbl (fst (run_file saves c s f h))).
+Proof. exact current_mod_run. Qed.
+Print Assumptions C18_file_current_any_policy.
+
+(* Before 9517ed8 the policy was "after an ACK only" ([saves_on_ack]).  Under it: nothing acknowledged is ever
+   missing from the file (full) ... *)
+Theorem C18_file_covers_ack_only : forall c h,
   let r := run_file saves_on_ack c (D.init c) [] h in covers (snd r) (D.tbl (fst r)).
 Proof. exact file_covers. Qed.
-Print Assumptions C18_file_covers.
+Print Assumptions C18_file_covers_ack_only.
 
-(* PARTIAL: the file holds nothing stale provided no step loses an acknowledged binding without an ACK
-   ([all_keep]); refuted in general, see below. *)
-Theorem C18_file_current_partial : forall c h,
+(* ... the file holds nothing stale only if no step loses an acknowledged binding without an ACK (partial) ... *)
+Theorem C18_file_current_ack_only_partial : forall c h,
   all_keep saves_on_ack c (D.init c) h ->
   let r := run_file saves_on_ack c (D.init c) [] h in current (snd r) (D.tbl (fst r)).
 Proof. exact file_current_partial. Qed.
-Print Assumptions C18_file_current_partial.
+Print Assumptions C18_file_current_ack_only_partial.
 
-(* REFUTED in general: DISCOVER, REQUEST (ACK: saved), DECLINE (lease freed, file not saved): the file still holds
-   the declined binding, which a restart would resurrect. *)
-Theorem C18_file_current_refuted :
+(* ... and is refuted in general: DISCOVER, REQUEST (ACK: saved), DECLINE (lease freed, not saved): the file still
+   holds the declined binding, which a restart would resurrect (findings stale-file-after-*, now fixed). *)
+Theorem C18_file_current_ack_only_refuted :
   let r := run_file saves_on_ack gcfg (D.init gcfg) [] (DSh.with_ch0 h_decline) in
   exists l, In l (snd r) /\ D.l_state l = D.SAllocated /\ D.l_ip l = Some 3232235522
             /\ forall l', In l' (D.tbl (fst r)) -> D.l_state l' <> D.SAllocated.
 Proof. exact file_current_refuted. Qed.
-Print Assumptions C18_file_current_refuted.
+Print Assumptions C18_file_current_ack_only_refuted.
+
+(* the same history under the repaired policy: the DECLINE step saves, the file holds no Allocated record *)
+Example C18_file_current_decline_repaired :
+  let r := run_file saves_repaired gcfg (D.init gcfg) [] (DSh.with_ch0 h_decline) in
+  forall l, In l (snd r) -> D.l_state l <> D.SAllocated.
+Proof. exact file_current_decline_repaired. Qed.
+Print Assumptions C18_file_current_decline_repaired.
 
 (* ---------------- keeps serving, with DHCP's step ---------------- *)
 
